@@ -61,15 +61,19 @@ def _is_some_literal(bi, operand):
     return False
 
 
-def presence_switches(bi, bb, kind):
-    """[(switch bb, target when the key is present / Some, target when absent / None)] for the lookup call at bb.
+def presence_switches(bi, bb, kind, local=None):
+    """[(switch bb, target when the key is present / Some, target when absent / None)] for the lookup call at bb (or for the
+    Option held in `local`, e.g. the result of an await).
     kind: "bool" (contains_key) | "option" (get / remove) | "entry".  Either target may be None (not decided there)."""
     body = bi.body
     out = []
-    t = body.blocks[bb].term
-    if t.k != "call" or t.dest is None or not t.dest.is_local():
-        return out
-    d0 = t.dest.local
+    if local is not None:
+        d0 = local
+    else:
+        t = body.blocks[bb].term
+        if t.k != "call" or t.dest is None or not t.dest.is_local():
+            return out
+        d0 = t.dest.local
     if kind == "bool":
         return [(sw, tr, fa) for sw, tr, fa in _bool_switches(bi, d0)]
     # Option / Entry valued: propagate through moves, borrows and presence-preserving adapters
@@ -159,15 +163,19 @@ def some_entry(bi, call_bb):
     return None
 
 
-def regions(prog, bi, cell, own_only=True):
+def regions(prog, bi, cell, own_only=True, through_wrappers=False):
     body = bi.body
     absent, present = set(), set()
     sites = []
     for e in prog.effects(bi.body.id):
         if own_only and e.chain:
             continue
-        if not e.touches(cell) or e.cells[-1] != cell:
+        if not e.touches(cell):
             continue
+        if e.cells[-1] != cell:
+            # the map may sit inside a small wrapper type of the crate (`struct ProjectIndex { projects: HashMap<..> }`)
+            if not (through_wrappers and cell in e.cells and all(c[0].startswith("crate::") for c in e.cells[e.cells.index(cell) + 1:])):
+                continue
         n = e.lib.split("::")[-1]
         if n in LOOKUPS:
             sites.append((e.bb, LOOKUPS[n]))
